@@ -290,7 +290,8 @@ pub fn main(args: &crate::Args) {
         let Ok(Ok(circuit)) = catch_unwind(AssertUnwindSafe(|| builder.build())) else { continue };
         let lanes = 1 + (h % 3) as usize;
         let k = 2 + ((h >> 8) % 4) as usize;
-        let min_h = 1usize << ((h >> 16) % 3);
+        // minimum trace height as a caller may give it: powers of two and arbitrary values (the packing normalises)
+        let min_h = [1usize, 2, 4, 3, 5, 6, 12, 24][((h >> 16) % 8) as usize];
         let packing = packing_of(lanes, k, min_h);
         let replay = json!({"field":"bb","program": calls.iter().map(|c| c.line()).collect::<Vec<_>>(), "pubs": pu, "privs": pr,
             "id": id, "lanes": lanes, "horner_k": k, "min_height": min_h});
